@@ -1470,10 +1470,12 @@ Proof.
     apply LInvG_l_run_timers. apply LInvG_update_time. exact I0. }
   destruct (if Nat.eqb mode 0 && loop_alive s && negb (stop_flag s0) then _ else _) as [s1 e0].
   cbn [fst] in I1.
-  assert (I2 : LInvG (fst (fst (if loop_alive s && negb (stop_flag s1)
-                                then run_loop fuel s1 beh mode else (s1, [], loop_alive s)))) [] []).
-  { destruct (loop_alive s && negb (stop_flag s1)); [apply LInvG_run_loop|]; exact I1. }
-  destruct (if loop_alive s && negb (stop_flag s1) then _ else _) as [[s2 e1] r'].
+  set (r1 := if Nat.eqb mode 0 && loop_alive s && negb (stop_flag s0) && stop_flag s1
+             then loop_alive s1 else loop_alive s).
+  assert (I2 : LInvG (fst (fst (if r1 && negb (stop_flag s1)
+                                then run_loop fuel s1 beh mode else (s1, [], r1)))) [] []).
+  { destruct (r1 && negb (stop_flag s1)); [apply LInvG_run_loop|]; exact I1. }
+  destruct (if r1 && negb (stop_flag s1) then _ else _) as [[s2 e1] r'].
   cbn [fst] in *. eapply LInvG_core; [|exact I2]. reflexivity.
 Qed.
 
